@@ -425,6 +425,17 @@ Theorem C10_mt_ite_pointwise :
 Proof. exact mt_apply_ite_sound. Qed.
 Print Assumptions C10_mt_ite_pointwise.
 
+Theorem C10_mt_ite_assignments :
+  forall (C : Type) cget cadd, lossy cget cadd ->
+  forall s (c : C) f g h,
+  MtOK s -> MCacheOK cget s c -> ref_ok s f -> ref_ok s g -> ref_ok s h ->
+  exists s' c' r, mt_apply_ite C cget cadd (FUEL s) s c f g h = Some (s', c', r) /\
+    MtOK s' /\ mext s s' /\
+    forall a, mfun_of s' r a =
+      if i64_is_zero (mfun_of s f a) then mfun_of s h a else mfun_of s g a.
+Proof. exact mt_apply_ite_mfun. Qed.
+Print Assumptions C10_mt_ite_assignments.
+
 (** restrict: the tail-recursive walk down the cube *)
 Theorem C10_mt_restrict_walk :
   forall fuel s idf fnode idv vnode phi lits,
@@ -465,6 +476,21 @@ Theorem C10_mt_restrict_pointwise :
       mvalue s f (ovr lits c0) x /\ mvalue s' r c0 x.
 Proof. exact mt_restrict_sound. Qed.
 Print Assumptions C10_mt_restrict_pointwise.
+
+(** in terms of assignments: the variables of the cube's literals are forced *)
+Theorem C10_mt_restrict_assignments :
+  forall (C : Type) cget cadd, lossy cget cadd ->
+  forall s (c : C) f vars lits,
+  MtOK s -> MCacheOK cget s c -> ref_ok s f -> Cube s vars lits ->
+  exists s' c' r, mt_restrict C cget cadd (FUEL s) s c f vars = Some (s', c', r) /\
+    MtOK s' /\ mext s s' /\
+    forall a, mfun_of s' r a =
+      mfun_of s f (fun v => match nth_error (s_v2l s) v with
+                            | Some l => match assoc_nat lits l with Some b => b | None => a v end
+                            | None => a v
+                            end).
+Proof. exact mt_restrict_mfun. Qed.
+Print Assumptions C10_mt_restrict_assignments.
 
 (** what a cube is: it denotes the product of its literals, and the executable
     checker run on real snapshots establishes the predicate *)
